@@ -173,6 +173,10 @@ func (e *BinaryOpExpr) checkWithCompares(ctx *CheckCtx) error {
 		return NewSyntaxError(e.GetPos(), "%s operator left and right type not same", op)
 	}
 	switch e.Op {
+	case Eq, NotEq:
+		if ltype != TNUMBER && ltype != TSTR && ltype != TBOOL {
+			return NewSyntaxError(e.Left.GetPos(), "%s operator has wrong type of left expression", op)
+		}
 	case Gt, Gte, Lt, Lte:
 		if ltype != TNUMBER && ltype != TSTR {
 			return NewSyntaxError(e.Left.GetPos(), "%s operator has wrong type of left expression", op)
